@@ -8,7 +8,8 @@ Local Open Scope string_scope. Local Open Scope list_scope.
 
 Inductive ccase :=
 | CXfer (r : route) (w : bool) (dst : option tree) (sname dname : string) (t : tree)
-        (err : bool) (obs : option tree) (reg : list string).
+        (err : bool) (obs : option tree) (reg : list string)
+| CBoth (a b : ccase).        (* one transfer_data call with two destination locations: one observation per destination *)
 
 (* equality of trees up to the order of directory entries (the harness lists them sorted) *)
 Fixpoint tree_eqb (a b : tree) : bool :=
@@ -31,7 +32,7 @@ Definition expected_reg (w : bool) (dst : option tree) (at_place : option tree) 
   let ty := if w then "PRIMARY" else match at_place with Some (Link _) => "SYMBOLIC_LINK" | _ => "PRIMARY" end in
   if is_dir dst then ["dst:PRIMARY"; String.append "dst/s:" ty] else [String.append "dst:" ty].
 
-Definition check_case (c : ccase) : bool :=
+Fixpoint check_case (c : ccase) : bool :=
   match c with
   | CXfer r w dst sname dname t err obs reg =>
       match transfer FUEL r w dst sname dname t with
@@ -41,4 +42,5 @@ Definition check_case (c : ccase) : bool :=
           && opt_eqb tree_eqb (lookup1 dname (entries fs')) obs
           && list_eqb String.eqb reg (expected_reg w dst (lookup fs' (place dst sname dname)))
       end
+  | CBoth a b => check_case a && check_case b
   end.
